@@ -80,6 +80,7 @@ template <class A> static Verdict check_type(const std::string &text, const std:
     stats().hit("fault_bit_but_parse_reports_success");
     std::string o;
     VF_REQUIRE(to_string<A>(f.uri, &o) && o == expected, "%s: parse with allocation %d failing reports success but recomposes to '%s', expected '%s'", A::name(), k, esc(o).c_str(), esc(expected).c_str());
+    VF_REQUIRE(A::EqualsUri(&f.uri, &q.uri) == URI_TRUE && snapshot<A>(f.uri).sameAs(snapshot<A>(q.uri)), "%s: parse with allocation %d failing reports success but the URI differs from the parse of its own text", A::name(), k);
   }
   for (int k = 1; k <= 24; k++) {
     Parsed<A> f;
@@ -95,6 +96,7 @@ template <class A> static Verdict check_type(const std::string &text, const std:
     stats().hit("fault_bit_but_make_owner_reports_success");
     std::string o;
     VF_REQUIRE(to_string<A>(f.uri, &o) && o == expected, "%s: make-owner with allocation %d failing reports success but recomposes to '%s', expected '%s'", A::name(), k, esc(o).c_str(), esc(expected).c_str());
+    VF_REQUIRE(A::EqualsUri(&f.uri, &q.uri) == URI_TRUE, "%s: make-owner with allocation %d failing reports success but the URI differs from the parse of its own text", A::name(), k);
   }
   return Verdict::pass();
 }
